@@ -100,3 +100,51 @@ def variants(obj, warm, fresh=True):
             yield 'append-pop', D
     except Exception:
         pass
+    # 4. an object that has been asked everything a user may ask without arguments - every public property and every method that can be called
+    #    without arguments (readers: none of them is documented to change its receiver) - before the method under test is used on it
+    D = _raw(cls, vals)
+    query_all(D)
+    if len(D.data) == n:
+        yield 'queried', D
+
+
+_SKIP = {'pop', 'clear', 'reverse', 'append', 'extend', 'insert', 'sort', 'remove', 'plot', 'animate', 'printline', 'print', 'about', 'Rand', 'Alloc', 'Empty', 'simplify',
+         'plot_intersect_volume', 'arghandler', 'binop', 'unop'}
+_READERS = {}
+
+
+def query_all(obj):
+    """call every public property and every public method that takes no required argument (exceptions are ignored)"""
+    import inspect
+    import io
+    import contextlib
+    C = type(obj)
+    names = _READERS.get(C)
+    if names is None:
+        names = []
+        for an in sorted(set(dir(C))):
+            if an.startswith('_') or an in _SKIP:
+                continue
+            attr = inspect.getattr_static(C, an)
+            if isinstance(attr, property):
+                names.append((an, False))
+            elif isinstance(attr, (staticmethod, classmethod)):
+                continue
+            elif callable(attr):
+                try:
+                    sig = inspect.signature(attr)
+                except (TypeError, ValueError):
+                    continue
+                req = [p for p in list(sig.parameters.values())[1:] if p.default is inspect.Parameter.empty and p.kind in (p.POSITIONAL_ONLY, p.POSITIONAL_OR_KEYWORD)]
+                if not req:
+                    names.append((an, True))
+        _READERS[C] = names
+    with contextlib.redirect_stdout(io.StringIO()):
+        for an, is_call in names:
+            try:
+                v = getattr(obj, an)
+                if is_call:
+                    v()
+            except Exception:
+                pass
+    return obj
